@@ -539,4 +539,5 @@ def run(ctx: Ctx, tier: str) -> Result:
     borrow(ctx, res, tier, "c19", ("C19.CHAIN",), "C02.PATH", "the include / exclude / root settings the frames are classified with resolve as documented (an empty list given in code is a value)")
     borrow(ctx, res, tier, "c03", ("C03.MERGE",), "C02.PLACE", "a tracepoint is installed at its own location: the snapshot it produces describes the frame of that location, not of a "
            "same-named function in another file")
+    borrow(ctx, res, tier, "c05", ("C05.BUDGET",), "C02.VAR", "every local of the frame is visited: the search is ended by the budget only, not by a value that was seen before")
     return res
